@@ -628,7 +628,7 @@ def run(ctx):
         if got != want:
             ctx.corr_break("C17/malformed-line", {"line": line}, {"model": got, "expected": want})
     run_keys(ctx, drv, 6 if not thorough else 40)
-    budget = 75 if not thorough else 580
+    budget = 75 if not thorough else 520
     plan = (["history"] * 5 + ["twostep"] + ["interp"] * 3 + ["uniform"] * 2)
     gens = {"history": gen_history, "twostep": gen_twostep, "uniform": gen_uniform, "interp": gen_interp}
     n = 110 if not thorough else 1500
